@@ -1694,43 +1694,71 @@ func c12r8(c *Ctx) {
 						oo.Unknown("stored entry is not a composite literal of the entry type")
 						continue
 					}
-					var goRun *ssa.Go
+					// Candidate starts: the `go x.Run(ch)` statements that can execute after this store
+					// (the normaliser's tail duplication may have copied the whole tail of the function, so
+					// another copy's store/start pair is not this store's); if none can, the starts from
+					// which this store can still be reached (started before stored); else all of them.
+					var allRuns, goRuns []*ssa.Go
 					for _, cc := range callsIn(fn) {
 						g, isGo := cc.Instr.(*ssa.Go)
 						if isGo && calleeName(cc.Common) == "Run" {
-							goRun = g
+							allRuns = append(allRuns, g)
 						}
 					}
-					if goRun == nil {
+					if len(allRuns) == 0 {
 						oo.Fail("no `go <informer>.Run(stopCh)` in the function that stores the informer")
 						continue
 					}
-					recv := callRecv(goRun.Common())
-					if rv, _, ok := p.resolveLocalField(recv); ok && rv != nil {
-						recv = rv
+					after := map[ssa.Instruction]bool{}
+					for _, x := range reachableAfter(mu, nil) {
+						after[x] = true
 					}
-					var stop ssa.Value
-					if a := callArgs(goRun.Common()); len(a) == 1 {
-						stop = stripConv(a[0])
-						if sv, _, ok := p.resolveLocalField(stop); ok && sv != nil {
-							stop = sv
+					for _, g := range allRuns {
+						if after[g] {
+							goRuns = append(goRuns, g)
 						}
 					}
+					if len(goRuns) == 0 {
+						for _, g := range allRuns {
+							for _, x := range reachableAfter(g, nil) {
+								if x == ssa.Instruction(mu) {
+									goRuns = append(goRuns, g)
+									break
+								}
+							}
+						}
+					}
+					if len(goRuns) == 0 {
+						goRuns = allRuns
+					}
 					var pr []string
-					if !p.sameValue(recv, fields[informerField]) {
-						pr = append(pr, "Run is invoked on "+p.describe(recv)+", not on the stored informer")
-					}
-					if stop == nil || !p.sameValue(stop, fields[stopField]) {
-						pr = append(pr, "Run is not given the stored StopCh (Delete could never stop this informer)")
-					}
 					if _, isMk := stripConv(fields[stopField]).(*ssa.MakeChan); !isMk {
 						pr = append(pr, "stored StopCh is not a freshly made channel")
 					}
-					if !p.mustPrecede(goRun, func(x ssa.Instruction) bool { return x == ssa.Instruction(mu) }) {
-						pr = append(pr, "informer is started before it is stored")
-					}
-					if lookupFact(p.FactsAt(goRun.Block()), false, func(x *ssa.Lookup) bool { return x == lk }) == nil {
-						pr = append(pr, "informer start is not under `!ok`")
+					for _, goRun := range goRuns {
+						recv := callRecv(goRun.Common())
+						if rv, _, ok := p.resolveLocalField(recv); ok && rv != nil {
+							recv = rv
+						}
+						var stop ssa.Value
+						if a := callArgs(goRun.Common()); len(a) == 1 {
+							stop = stripConv(a[0])
+							if sv, _, ok := p.resolveLocalField(stop); ok && sv != nil {
+								stop = sv
+							}
+						}
+						if !p.sameValue(recv, fields[informerField]) {
+							pr = append(pr, "Run is invoked on "+p.describe(recv)+", not on the stored informer")
+						}
+						if stop == nil || !p.sameValue(stop, fields[stopField]) {
+							pr = append(pr, "Run is not given the stored StopCh (Delete could never stop this informer)")
+						}
+						if !p.mustPrecede(goRun, func(x ssa.Instruction) bool { return x == ssa.Instruction(mu) }) {
+							pr = append(pr, "informer is started before it is stored")
+						}
+						if lookupFact(p.FactsAt(goRun.Block()), false, func(x *ssa.Lookup) bool { return x == lk }) == nil {
+							pr = append(pr, "informer start is not under `!ok`")
+						}
 					}
 					if len(pr) == 0 {
 						oo.OK()
